@@ -1,6 +1,6 @@
 //! C02 — type soundness: single perturbations of well-typed programs (a sub-expression replaced
 //! by a literal of another type or by another name, call arguments swapped, a statement dropped,
-//! an annotation changed). Every perturbed program the checker accepts is run under the strict
+//! an annotation changed, a `ret` of a literal of any type inserted into any block). Every perturbed program the checker accepts is run under the strict
 //! reference interpreter and under MiniLua: a tag / scope error is a violation.
 
 use crate::ast::*;
@@ -168,6 +168,8 @@ enum Pert {
     DropTrailingOfBlock(usize),
     ChangeAnnotation(usize, usize),
     WidenTupleOrList(usize),
+    /// `ret <literal>` inserted at the start (b even) or before the last statement (b odd) of block a
+    InsertRet(usize, usize),
 }
 
 fn pert_json(p: &Pert) -> serde_json::Value {
@@ -179,6 +181,7 @@ fn pert_json(p: &Pert) -> serde_json::Value {
         Pert::DropTrailingOfBlock(a) => json!({"kind": "DropTrailingOfBlock", "a": a}),
         Pert::ChangeAnnotation(a, b) => json!({"kind": "ChangeAnnotation", "a": a, "b": b}),
         Pert::WidenTupleOrList(a) => json!({"kind": "WidenTupleOrList", "a": a}),
+        Pert::InsertRet(a, b) => json!({"kind": "InsertRet", "a": a, "b": b}),
     }
 }
 
@@ -193,6 +196,7 @@ fn pert_from_json(v: &serde_json::Value) -> Option<Pert> {
         "DropTrailingOfBlock" => Pert::DropTrailingOfBlock(a),
         "ChangeAnnotation" => Pert::ChangeAnnotation(a, b),
         "WidenTupleOrList" => Pert::WidenTupleOrList(a),
+        "InsertRet" => Pert::InsertRet(a, b),
         _ => return None,
     })
 }
@@ -374,6 +378,20 @@ fn apply(p: &Program, pert: &Pert, names: &[String]) -> Option<Program> {
                 }
             });
         }
+        Pert::InsertRet(k, li) => {
+            let lit = literals()[*li / 2].1.clone();
+            let mut i = 0;
+            visit_blocks(&mut q, &mut |b| {
+                if i == *k {
+                    let pos = if *li % 2 == 0 { 0 } else { b.len().saturating_sub(1) };
+                    b.insert(pos, Stmt::Ret(Some(lit.clone())));
+                    changed = true;
+                    return true;
+                }
+                i += 1;
+                false
+            });
+        }
         Pert::WidenTupleOrList(k) => {
             let mut i = 0;
             visit_exprs(&mut q, &mut |e| {
@@ -411,6 +429,10 @@ fn without_externals(p: &Program) -> Program {
 fn bases(thorough: bool) -> Vec<(String, Program)> {
     let mut v = Vec::new();
     for (fam, p) in crate::stmtfam::all_programs_len(if thorough { 2 } else { 1 }) {
+        // quick: the late-globals family with the user function first and the global a constant or a function
+        if !thorough && fam.starts_with("late-globals:") && !(fam.ends_with(":o0") && (fam.contains(":g0:") || fam.contains(":g2:"))) {
+            continue;
+        }
         v.push((fam, without_externals(&p)));
     }
     let space = crate::engines::c01::expr_space(1);
@@ -585,6 +607,12 @@ pub fn run(run: &mut Run) {
         }
         for k in 0..nb {
             perts.push(Pert::DropTrailingOfBlock(k));
+            for li in 0..2 * literals().len() {
+                // quick: int / float / str / bool
+                if thorough || li < 8 {
+                    perts.push(Pert::InsertRet(k, li));
+                }
+            }
         }
         for k in 0..12 {
             for ti in 0..ANN_TYPES.len() {
